@@ -10,7 +10,7 @@ with lookup list `ll`, GDEF `gd`, lookup indices `lookups` and persistent stack 
 All theorems quantify over ARBITRARY tables: nothing relates coverage indices, class
 values, lookup / sequence / filtering-set indices to the sizes of what they index.
 -/
-import SfntV.Proofs.ShapeSafe
+import SfntV.Proofs.ShapeSafeNested
 
 namespace SfntV.Props.C07
 open SfntV SfntV.Shape
@@ -100,9 +100,21 @@ theorem C07_no_panic_partial (B : Nat) (ll : LookupList) (gd : Gdef) (lookups : 
     Shape.apply B ll gd lookups [] seq ≠ .panic site :=
   (applyLookups_safe B ll gd hg hs lookups ⟨seq, []⟩ rfl).noPanic site
 
-/-- The full statement, for guarded lookup lists WITH contextual subtables: it needs the
-well-formedness of the stack of nested actions (`InputPos` inside the sequence) to be
-preserved by `fixStackInsert`/`fixStackMerge`; not proved yet.  The direct stream
+/-- **No panic**, second class: guarded lookup lists WITH contextual subtables (contexts 1–3,
+chained contexts 1–3, arbitrarily nested and self-referential, any number of actions, any
+sequence indices) in which every nested action runs a length-preserving lookup, i.e. one
+without multiple (GSUB 2.1) and ligature (GSUB 4.1) substitutions — `nestedFixedLL`.  Lookups
+applied at the top level may be of any type.  The proof carries the well-formedness of the
+stack of nested actions (recorded positions and `EndPos` inside the sequence) through the
+loop over the actions. -/
+theorem C07_no_panic_nested_fixed (B : Nat) (ll : LookupList) (gd : Gdef) (lookups : List Nat)
+    (seq : List Glyph) (hg : guardedLL ll = true) (hn : nestedFixedLL ll = true) (site : String) :
+    Shape.apply B ll gd lookups [] seq ≠ .panic site :=
+  (applyLookups_safeN B ll gd hg hn lookups ⟨seq, []⟩ rfl).noPanic site
+
+/-- The full statement, for ALL guarded lookup lists (nested actions that insert or merge
+glyphs included): it needs the well-formedness of the stack to be preserved by
+`fixStackInsert`/`fixStackMerge`; not proved yet.  The direct stream
 `shape.safe` evaluates exactly this statement on the real code for every generated guarded
 case. -/
 def C07_no_panic_full : Prop :=
@@ -140,6 +152,16 @@ def exSimple : LookupList :=
    ⟨8, 0, [.gsub41 [(2, 0)] [[⟨[3], 7⟩]]]⟩]
 
 example : guardedLL exSimple = true ∧ simpleLL exSimple = true := by decide
+
+/-- a guarded list with a self-referential context whose nested lookups preserve the length -/
+def exNested : LookupList :=
+  [⟨0, 0, [.chain1 [(1, 0)] [[⟨[2], [3], [], [⟨1, 1⟩, ⟨0, 0⟩, ⟨7, 1⟩]⟩]]]⟩,
+   ⟨0, 0, [.gsub12 [(1, 0), (3, 1)] [5, 6]]⟩]
+
+example : guardedLL exNested = true ∧ nestedFixedLL exNested = true ∧ simpleLL exNested = false := by decide
+example : Shape.apply 64 exNested exGdef [0] []
+      [⟨2, [97], 0, 0, 0⟩, ⟨1, [98], 0, 0, 0⟩, ⟨3, [99], 0, 0, 0⟩]
+    = .ok ⟨[⟨2, [97], 0, 0, 0⟩, ⟨1, [98], 0, 0, 0⟩, ⟨6, [99], 0, 0, 0⟩], []⟩ := by decide
 example : llGrowth exSimple = 1 := by decide
 example : Shape.apply 64 exSimple exGdef [0, 1] []
       [⟨2, [97], 0, 0, 0⟩, ⟨10, [98], 0, 0, 0⟩, ⟨1, [99], 0, 0, 0⟩]
